@@ -315,7 +315,7 @@ let run_line (lineno : int) (tok : string array) =
       | Some { vals = Some v; _ } -> Hashtbl.replace vas (h 1) (v, false); st 0
       | _ -> Hashtbl.remove vas (h 1); st (-1))
    | "csrows" -> let c = get css (h 1) in st (int_of_z (match c.vals with Some v -> va_row_cnt !v | None -> sBDF_ERROR_ARGUMENT_NULL))
-   | "csdel" -> Hashtbl.remove css (h 1); st 0
+   | "csdel" | "csforget" -> Hashtbl.remove css (h 1); st 0
    | "csdump" -> dump_cs (Hashtbl.find_opt css (h 1))
    | "tsnew" -> Hashtbl.replace tss (h 1) { cols = []; towned = false }; st 0
    | "tsadd" -> let t = get tss (h 1) in t.cols <- t.cols @ [Some (get css (h 2))]; st 0
